@@ -10,8 +10,9 @@
    run-at-PCM-rate ability, prediction of ChipFrontMC for the row. *)
 EXTENDS ChipFront, Json, IOUtils
 T == ndJsonDeserialize(IOEnv.TRACE)
-MaxPerLabel == 3
-MaxFails == 40
+\* failures kept per label and in total (per trace file); CF_MAXPER in the environment lifts the caps for diagnosis
+MaxPerLabel == IF "CF_MAXPER" \in DOMAIN IOEnv THEN atoi(IOEnv.CF_MAXPER) ELSE 3
+MaxFails == IF "CF_MAXPER" \in DOMAIN IOEnv THEN 100000 ELSE 40
 VARIABLES l, X, fails, cnt, drift, exec
 vars == <<l, X, fails, cnt, drift, exec>>
 
@@ -40,14 +41,14 @@ TheKey(H) == (CHOOSE h \in H : TRUE)[2]
 
 \* prediction of ChipFrontMC for the previous execution against what was observed (refinement, never a verdict)
 PredDrift(ev) ==
-  IF exec = 0 \/ ~X.judged \/ X.cfg.pred = "unknown" THEN <<>>
+  IF exec = 0 \/ ~X.judged \/ X.cfg.pred \in {"unknown", "replayed"} THEN <<>>
   ELSE IF X.cfg.pred = "ok" /\ X.xf > 0 THEN <<"pred-ok-but-failed">>
   ELSE IF X.cfg.pred # "ok" /\ X.xf = 0 THEN <<"pred-" \o X.cfg.pred \o "-but-passed">>
   ELSE <<>>
 ClosePrev(ev) ==
   LET pd == PredDrift(ev) IN
   [dr |-> IF pd = <<>> THEN drift ELSE AddDrift(drift, pd[1], ev, ToString(exec)),
-   c |-> [cnt EXCEPT !.refined_pred = @ + (IF exec > 0 /\ X.judged /\ X.cfg.pred # "unknown" THEN 1 ELSE 0),
+   c |-> [cnt EXCEPT !.refined_pred = @ + (IF exec > 0 /\ X.judged /\ X.cfg.pred \notin {"unknown", "replayed"} THEN 1 ELSE 0),
                       !.drifted = @ + (IF pd = <<>> THEN 0 ELSE 1)]]
 
 StepInit(ev) ==
